@@ -15,6 +15,8 @@ TRIAGE={
  ("src/actor/spawn.rs","continue;"):"equivalent: without the `continue` the loop body falls through to the command loop over an EMPTY `Out` and starts the next iteration",
  ("src/actor/model.rs","if state.timers_set.len() <= index {"):"dead defensive code: `init_states` pre-sizes `timers_set`, the resize is never needed (coverage: never executed)",
  ("src/actor/network.rs","assert!(value > 0);"):"defensive assertion that never fires (counts of the multiset are >= 1 by construction: theorem C07_canonical)",
+ ("src/checker.rs","let additional_info = if additional_info.is_empty() {"):"only the TEXT of the panic message of assert_discovery changes (whether the parenthesised hints are appended); which calls panic is unchanged",
+ ("src/checker/on_demand.rs","if pending.len() > 1 && thread_count > 1 {"):"equivalent: with exactly one pending job `split_and_push` computes a piece size of 0 and publishes nothing",
  ("src/checker/explorer.rs","fingerprints.push_back(fingerprint);"):"equivalent: the deque is EMPTY at that point (branch `fingerprints.is_empty()`), front = back",
 }
 out=["# Mutation runs (tools/mutate.py)","",
